@@ -54,5 +54,7 @@ determinism)
   ;;
 sensitivity)
   exec "$HERE/sensitivity.sh" "${@:2}" ;;
-*) echo "usage: ./check selftest determinism [n] | sensitivity"; exit 2 ;;
+specificity)
+  exec "$HERE/specificity.sh" "${@:2}" ;;
+*) echo "usage: ./check selftest determinism [n] | sensitivity | specificity"; exit 2 ;;
 esac
